@@ -28,20 +28,22 @@ func ruleBTSentinel(c *Ctx) {
 	}
 	// the sentinel the builder stores
 	var stored constant.Value
-	for _, b := range bfn.Blocks {
-		for _, in := range b.Instrs {
-			st, ok := in.(*ssa.Store)
-			if !ok {
-				continue
-			}
-			fa, ok := st.Addr.(*ssa.FieldAddr)
-			if !ok || fieldName(fa.X.Type(), fa.Field) != offName {
-				continue
-			}
-			for _, s := range phiSources(st.Val) {
-				if k, ok := s.(*ssa.Const); ok {
-					if v, ok := (Folder{P}).Fold(k); ok {
-						stored = v
+	for _, g := range recordBuilderGroup(P, bfn) {
+		for _, b := range g.Blocks {
+			for _, in := range b.Instrs {
+				st, ok := in.(*ssa.Store)
+				if !ok {
+					continue
+				}
+				fa, ok := st.Addr.(*ssa.FieldAddr)
+				if !ok || fieldName(fa.X.Type(), fa.Field) != offName {
+					continue
+				}
+				for _, s := range phiSources(st.Val) {
+					if k, ok := s.(*ssa.Const); ok {
+						if v, ok := (Folder{P}).Fold(k); ok {
+							stored = v
+						}
 					}
 				}
 			}
@@ -754,6 +756,23 @@ func ruleRCVarint(c *Ctx) {
 			b = extractOf(cs.Value(), 0)
 		}
 	}
+	if b == nil {
+		// ReadByte inlined: the byte is buf[cursor]
+		for _, blk := range dec.Blocks {
+			for _, in := range blk.Instrs {
+				if ld, ok := in.(*ssa.UnOp); ok && ld.Op == token.MUL {
+					if ia, ok := ld.X.(*ssa.IndexAddr); ok && isBasicKind(ld.Type(), types.Byte) {
+						if bl, ok := ia.X.(*ssa.UnOp); ok && bl.Op == token.MUL {
+							if fa, ok := bl.X.(*ssa.FieldAddr); ok && typeKey(fa.X.Type()) == "*avro.ReadBuf" && innermostLoop(dec, blk) != nil {
+								b = ld
+							}
+						}
+					}
+				}
+			}
+		}
+	}
+	step := int64(1) // the counter may be the byte index (step 1) or the shift (step 7)
 	var iPhi *ssa.Phi
 	for _, l := range loopsOf(dec) {
 		for _, in := range l.Header.Instrs {
@@ -761,14 +780,16 @@ func ruleRCVarint(c *Ctx) {
 			if !ok {
 				continue
 			}
-			if bt, isB := phi.Type().Underlying().(*types.Basic); !isB || bt.Kind() != types.Int {
+			if bt, isB := phi.Type().Underlying().(*types.Basic); !isB || bt.Kind() != types.Int && bt.Kind() != types.Uint {
 				continue
 			}
 			isCounter := false
+			phiStep := int64(1)
 			for _, e := range phi.Edges {
 				if bo, ok := e.(*ssa.BinOp); ok && bo.Op == token.ADD && bo.X == ssa.Value(phi) {
-					if one, ok := constInt(bo.Y); ok && one == 1 {
+					if one, ok := constInt(bo.Y); ok && (one == 1 || one == 7) {
 						isCounter = true
+						phiStep = one
 					}
 				}
 			}
@@ -778,8 +799,8 @@ func ruleRCVarint(c *Ctx) {
 					zeroInit = true
 				}
 			}
-			if isCounter && zeroInit {
-				iPhi = phi
+			if isCounter && zeroInit && (iPhi == nil || phiStep == 1) {
+				iPhi, step = phi, phiStep
 			}
 		}
 	}
@@ -807,6 +828,14 @@ func ruleRCVarint(c *Ctx) {
 			var tgt *int64
 			if x == ssa.Value(iPhi) {
 				tgt = &iMax
+				// in units of the byte index
+				switch op {
+				case token.LSS:
+					k = (k+step-1)/step - 1
+					op = token.LEQ
+				default:
+					k = k / step
+				}
 			} else if stripConv(x) == b || x == b {
 				tgt = &bMax
 			} else {
@@ -851,7 +880,7 @@ func ruleRCVarint(c *Ctx) {
 			ne9 := false
 			for _, cmp := range facts {
 				if cmp.Op == token.NEQ && cmp.X == ssa.Value(iPhi) {
-					if k, ok := constInt(cmp.Y); ok && k == 9 {
+					if k, ok := constInt(cmp.Y); ok && k == 9*step {
 						ne9 = true
 					}
 				}
